@@ -1,8 +1,8 @@
 //verif:pkg pkg/fuse
 //verif:use store,aferostub,fusehelp
 //verif:assume the mutable file system is driven through its fuseutil.FileSystem methods the way the kernel drives them: rmdir only on directories, unlink only on non-directories, rename only between entries of compatible kinds and never of a directory into itself (the kernel's VFS refuses the other cases before they reach the file system); one ForgetInode for every inode whose last name was removed (lookup count 1: no extra lookups are issued while the program runs)
-//verif:assume programs of 3 (thorough: 4) operations chosen by the solver from {mkdir, create, write (append two bytes, or overwrite the first byte), unlink, rmdir, rename} over the parents {root, directory d} and the names {d, x}; the staging area is an in-memory afero.Fs model; commit runs the real Commit() (real cafs, BLAKE2b as UF) and the committed bundle is read back with DownloadMetadata
-//verif:cover VerifC18Programs eexist enoent enotempty renamed replaced-by-rename committed-nested-file in-place-overwrite
+//verif:assume programs of 3 (thorough: 4) operations chosen by the solver from {mkdir, create, write (append two bytes, or overwrite the first byte), truncate (to nothing, or two bytes longer), unlink, rmdir, rename} over the parents {root, directory d} and the names {d, x}; the staging area is an in-memory afero.Fs model; commit runs the real Commit() (real cafs, BLAKE2b as UF) and the committed bundle is read back with DownloadMetadata
+//verif:cover VerifC18Programs eexist enoent enotempty renamed replaced-by-rename committed-nested-file in-place-overwrite extending-truncate
 package fuse
 
 import (
@@ -103,7 +103,7 @@ func VerifC18Programs() {
 		n := names[vChoose("name", 2)]
 		path := join(p, n)
 		cur := ref[path]
-		switch vChoose("op", 6) {
+		switch vChoose("op", 7) {
 		case 0: // mkdir
 			op := &fuseops.MkDirOp{Parent: parentIno(p), Name: n}
 			err := fs.MkDir(ctx, op)
@@ -148,6 +148,23 @@ func VerifC18Programs() {
 			}
 			ga := &fuseops.GetInodeAttributesOp{Inode: cur.ino}
 			vAssert(fs.GetInodeAttributes(ctx, ga) == nil && ga.Attributes.Size == uint64(len(cur.data)), "size-follows-writes")
+		case 6: // truncate (shrink to nothing, or extend by two zero bytes)
+			if cur == nil || cur.dir {
+				vAssume(false)
+			}
+			size := uint64(0)
+			if vChoose("extend", 2) == 1 {
+				size = uint64(len(cur.data) + 2)
+				vCover("extending-truncate")
+			}
+			op := &fuseops.SetInodeAttributesOp{Inode: cur.ino, Size: &size}
+			vAssert(fs.SetInodeAttributes(ctx, op) == nil, "truncate-succeeds")
+			if size == 0 {
+				cur.data = ""
+			} else {
+				cur.data += "\x00\x00"
+			}
+			vAssert(op.Attributes.Size == size, "truncate-reports-the-new-size")
 		case 3: // unlink (the kernel only sends it for non-directories)
 			if cur != nil && cur.dir {
 				vAssume(false)
